@@ -30,13 +30,21 @@
 //!       select-stale <sl> <cl> -> stale      (when hyp fails: the real result then depends on HashSet
 //!                                             iteration order; only the oracle judges such probes)
 //!     (`pool`, `ent`, `closure`, `hyp` lines are derived data: ignored when replayed, `select` regenerates them)
+//!   make <tid> <t.i,..> <n_out> <fee>   build tx `tid` WITHOUT submitting it                       -> ok
+//!   send <tid>              submit a tx built by `make` (when its id is already inside the proposal
+//!                           window it enters as Proposed -> the incremental update_transactions path) -> ok
+//!   propose <tid,..>        a ChainBuilder block on the tip proposing these ids is processed          -> ok
+//!   tsize <max> <U> <base> <|uncles|> <|proposals|> <Σ tx sizes> <size.txs> <size.proposals> <size.uncles> <size.total>
+//!                           (derived, after every scenario op: the assembler's TemplateSize next to the
+//!                            real sizes of its template, read under its lock) -> total=<b> parts=<b> le=<b> inv=<b>
 //!   weight <size> <cycles>  -> get_transaction_weight
 //!
 //! Oracle (implementation alone): class `template-rejected` (copy node did not answer Ok(true)),
 //! `template-header`, `template-order` (a parent after its child), `template-unresolved` (an input that
 //! is neither live on the template's parent chain nor created earlier in the template, or spent twice),
 //! `template-size`, `template-cycles`, `template-proposals`, `template-uncles`, `template-cellbase`,
-//! `selector-dup`, `selector-ancestors`, `selector-order`, `selector-limits`, `selector-sums`.
+//! `selector-dup`, `selector-ancestors`, `selector-order`, `selector-limits`, `selector-sums`,
+//! `template-size-bookkeeping` (TemplateSize differs from the real sizes of the template it describes).
 use crate::common::*;
 use crate::node::*;
 use ckb_app_config::{BlockAssemblerConfig, NetworkConfig, TxPoolConfig};
@@ -183,7 +191,7 @@ impl World {
         let dir = base.join(format!("case-{case}"));
         let _ = std::fs::remove_dir_all(&dir);
         std::fs::create_dir_all(&dir).unwrap();
-        let ncfg = NodeCfg { epoch_len: cfg.epoch_len, window: (cfg.w_close, cfg.w_far), genesis_cells: 24, maturity_epochs: 0, with_pool: false, tx_pool: None };
+        let ncfg = NodeCfg { epoch_len: cfg.epoch_len, window: (cfg.w_close, cfg.w_far), genesis_cells: 40, maturity_epochs: 0, with_pool: false, tx_pool: None };
         let mut consensus = make_consensus(&ncfg);
         consensus.max_block_bytes = cfg.max_bytes;
         consensus.max_block_cycles = cfg.max_cycles;
@@ -620,6 +628,44 @@ fn do_select(w: &mut World, out: &mut Out, sl: u64, cl: u64) {
 }
 
 // ------------------------------------------------------------------------------------------------
+// TemplateSize bookkeeping (Model/Template.lean's invariant on the real assembler state)
+// ------------------------------------------------------------------------------------------------
+
+fn emit_tsize(w: &mut World, out: &mut Out) {
+    let r = match w.tpc().verif_assembler_size() {
+        Ok(Some(r)) => r,
+        _ => return,
+    };
+    let [s_txs, s_props, s_unc, s_total, n_unc, n_props, txs_actual, basic] = r.map(|x| x as u64);
+    let u = ckb_types::core::UncleBlockView::serialized_size_in_block() as u64;
+    let p = ProposalShortId::serialized_size() as u64;
+    let max = w.consensus.max_block_bytes;
+    let base = basic - u * n_unc - p * n_props;
+    let actual = basic + txs_actual;
+    let total_ok = s_total == actual;
+    let parts_ok = s_txs == txs_actual && s_props == p * n_props && s_unc == u * n_unc;
+    let le_ok = actual <= max;
+    let b = |x: bool| x as u8;
+    out.op(
+        &format!("tsize {} {} {} {} {} {} {} {} {} {}", max, u, base, n_unc, n_props, txs_actual, s_txs, s_props, s_unc, s_total),
+        &format!("total={} parts={} le={} inv={}", b(total_ok), b(parts_ok), b(le_ok), b(total_ok && parts_ok && le_ok)),
+    );
+    out.count("tsize");
+    if !(total_ok && parts_ok) {
+        out.oracle_fail("template-size-bookkeeping", &format!("size={{txs:{s_txs},proposals:{s_props},uncles:{s_unc},total:{s_total}}} but template has uncles={n_unc} proposals={n_props} txs_bytes={txs_actual} basic={basic} (real total {actual})"));
+    }
+    if !le_ok {
+        if pool_aggregates_stale(w) {
+            w.stale_op = Some(w.op_no);
+        }
+        fail(w.stale(), out, "template-size", &format!("assembler state: real total {actual} > max {max} (uncles={n_unc} proposals={n_props} txs_bytes={txs_actual})"));
+    }
+    if actual + 300 > max {
+        out.count("tsize-within-300-of-limit");
+    }
+}
+
+// ------------------------------------------------------------------------------------------------
 // executing ops
 // ------------------------------------------------------------------------------------------------
 
@@ -640,7 +686,7 @@ fn exec(w: &mut Option<World>, out: &mut Out, base: &Path, line: &str) {
             *w = Some(World::new(base, out.case, cfg));
             out.op(line, "ok");
         }
-        "pool" | "ent" | "closure" | "hyp" => { /* derived lines, regenerated by `select` */ }
+        "pool" | "ent" | "closure" | "hyp" | "tsize" => { /* derived lines, regenerated */ }
         "weight" => {
             let n = nums(&ts[1..]);
             out.op(line, &get_transaction_weight(n[0] as usize, n[1]).to_string());
@@ -672,6 +718,50 @@ fn exec(w: &mut Option<World>, out: &mut Out, base: &Path, line: &str) {
                         Ok(Err(_)) => out.count("submit-rejected"),
                         Err(_) => out.count("submit-error"),
                     }
+                    out.op(line, "ok");
+                }
+                "make" => {
+                    let tid: usize = ts[1].parse().unwrap();
+                    assert_eq!(tid, w.txs.len() + 1, "tids are consecutive");
+                    let inputs: Vec<(OutPoint, u64)> = ts[2]
+                        .split(',')
+                        .map(|p| {
+                            let (a, b) = p.split_once('.').expect("t.i");
+                            let (t, i): (usize, usize) = (a.parse().unwrap(), b.parse().unwrap());
+                            assert!(t <= w.txs.len());
+                            w.out_point(t, i)
+                        })
+                        .collect();
+                    let tx = spend_tx(&inputs, ts[3].parse().unwrap(), ts[4].parse().unwrap(), tid as u64);
+                    w.tid_by_short.insert(tx.proposal_short_id(), tid);
+                    w.tid_by_hash.insert(tx.hash(), tid);
+                    w.txs.push(tx);
+                    out.op(line, "ok");
+                }
+                "send" => {
+                    let tid: usize = ts[1].parse().unwrap();
+                    let tx = w.txs[tid - 1].clone();
+                    let proposed_now = w.main.shared.snapshot().proposals().contains_proposed(&tx.proposal_short_id());
+                    match w.tpc().submit_local_tx(tx) {
+                        Ok(Ok(())) => out.count(if proposed_now { "send-accepted-as-proposed" } else { "send-accepted" }),
+                        Ok(Err(_)) => out.count("send-rejected"),
+                        Err(_) => out.count("submit-error"),
+                    }
+                    out.op(line, "ok");
+                }
+                "propose" => {
+                    let ids: Vec<ProposalShortId> = ts[1].split(',').map(|t| w.txs[t.parse::<usize>().unwrap() - 1].proposal_short_id()).collect();
+                    w.salt += 1;
+                    let tip = w.main.tip_hash();
+                    let spec = BlockSpec { proposals: ids, salt: w.salt, ..Default::default() };
+                    let b = w.builder.build(&tip, &spec);
+                    let r = w.main_process(&b);
+                    if r == Ok(true) {
+                        out.count("propose-block");
+                    } else {
+                        out.count("propose-block-rejected");
+                    }
+                    w.sync_pool(out);
                     out.op(line, "ok");
                 }
                 "wait" => {
@@ -740,6 +830,7 @@ fn exec(w: &mut Option<World>, out: &mut Out, base: &Path, line: &str) {
                 }
                 other => panic!("bad op {other}"),
             }
+            emit_tsize(w, out);
         }
     }
 }
@@ -966,6 +1057,140 @@ fn gen_case(out: &mut Out, base: &Path, rng: &mut Rng, steps: u64) {
     }
 }
 
+/// Scenarios on ONE tip: transactions whose ids are already inside the proposal window are submitted
+/// one by one (they enter as Proposed, so the template grows through the incremental
+/// `update_transactions` path) until the block is within a few bytes of `max_block_bytes`; candidate
+/// uncles and fresh pending transactions (new proposals) arrive before / between / after that, and the
+/// template is fetched and verified. `variant`: 0 = txs, then uncles + proposals; 1 = uncles, txs,
+/// proposals; 2 = proposals, txs, uncles.
+fn gen_fill_case(out: &mut Out, base: &Path, rng: &mut Rng, variant: u64) {
+    let w_close = rng.range(1, 2);
+    let w_far = w_close + 3;
+    let max_bytes = rng.range(2200, 4200);
+    let interval = *rng.pick(&[0u64, 0, 5]);
+    let cfgl = format!("cfg 40 {} {} {} 3500000000 1500 2 {} 25", w_close, w_far, max_bytes, interval);
+    out.begin_case(&format!("fill variant={variant} bytes={max_bytes}"));
+    let mut w: Option<World> = None;
+    exec(&mut w, out, base, &cfgl);
+    let settle = format!("wait {}", if interval > 0 { interval + 4 } else { 3 });
+    let mut fp = format!("fill{variant}");
+    let mut run = |w: &mut Option<World>, out: &mut Out, l: &str| {
+        fp.push(l.as_bytes()[0] as char);
+        exec(w, out, base, l);
+    };
+    for _ in 0..rng.range(1, w_far + 2) {
+        run(&mut w, out, "mine 1");
+    }
+    // a surplus of transactions of different sizes, proposed but not yet submitted
+    let outs = [1u64, 1, 1, 2, 2, 2, 3, 3, 4, 4, 5, 6];
+    for (k, n_out) in outs.iter().enumerate() {
+        let fee = *rng.pick(&[1000u64, 2000, 5000, 100_000]);
+        run(&mut w, out, &format!("make {} 0.{} {} {}", k + 1, k, n_out, fee));
+    }
+    run(&mut w, out, "propose 1,2,3,4,5,6,7,8,9,10,11,12");
+    for _ in 0..(w_close - 1 + rng.below(2)) {
+        run(&mut w, out, "mine 1");
+    }
+    run(&mut w, out, &settle);
+    let mut next_tid = 13usize;
+    let mut next_cell = 12usize;
+    let mut fresh = |w: &mut Option<World>, out: &mut Out, rng: &mut Rng, n: u64, run: &mut dyn FnMut(&mut Option<World>, &mut Out, &str)| {
+        for _ in 0..n {
+            if next_cell >= 40 {
+                break;
+            }
+            run(w, out, &format!("submit {} 0.{} 1 {}", next_tid, next_cell, *rng.pick(&[1000u64, 5000])));
+            next_tid += 1;
+            next_cell += 1;
+        }
+    };
+    let uncles = |w: &mut Option<World>, out: &mut Out, rng: &mut Rng, run: &mut dyn FnMut(&mut Option<World>, &mut Out, &str)| {
+        for _ in 0..rng.range(1, 2) {
+            run(w, out, "uncle 0 0");
+        }
+    };
+    // the transactions that fill the block: chosen now, when the room on this tip is known
+    let fill = |w: &mut Option<World>, out: &mut Out, rng: &mut Rng, run: &mut dyn FnMut(&mut Option<World>, &mut Out, &str)| {
+        let world = w.as_ref().unwrap();
+        let room = match world.tpc().verif_assembler_size() {
+            Ok(Some(r)) => world.consensus.max_block_bytes.saturating_sub((r[7] + r[6]) as u64),
+            _ => 0,
+        };
+        let sizes: Vec<u64> = (0..12).map(|k| world.txs[k].data().serialized_size_in_block() as u64).collect();
+        let slack = *rng.pick(&[0u64, 0, 0, 9, 60, 130, 227, 229, 290]);
+        let target = room.saturating_sub(slack);
+        let mut best = (0u64, 0u32);
+        for m in 1u32..4096 {
+            let sum: u64 = (0..12).filter(|k| m >> k & 1 == 1).map(|k| sizes[k as usize]).sum();
+            if sum <= target && sum > best.0 {
+                best = (sum, m);
+            }
+        }
+        let mut order: Vec<usize> = (0..12).filter(|k| best.1 >> k & 1 == 1).collect();
+        rng.shuffle(&mut order);
+        for (i, k) in order.iter().enumerate() {
+            run(w, out, &format!("send {}", k + 1));
+            if i % 3 == 2 && rng.chance(1, 2) {
+                run(w, out, "wait 2");
+            }
+        }
+        if room.saturating_sub(best.0) < 228 {
+            out.count("fill-left-less-than-an-uncle");
+        }
+    };
+    match variant {
+        0 => {
+            fill(&mut w, out, rng, &mut run);
+            run(&mut w, out, &settle);
+            if rng.chance(1, 2) {
+                uncles(&mut w, out, rng, &mut run);
+                run(&mut w, out, &settle);
+                run(&mut w, out, "template");
+                { let n = rng.range(3, 12); fresh(&mut w, out, rng, n, &mut run); }
+            } else {
+                { let n = rng.range(3, 12); fresh(&mut w, out, rng, n, &mut run); }
+                run(&mut w, out, &settle);
+                run(&mut w, out, "template");
+                uncles(&mut w, out, rng, &mut run);
+            }
+        }
+        1 => {
+            uncles(&mut w, out, rng, &mut run);
+            run(&mut w, out, &settle);
+            fill(&mut w, out, rng, &mut run);
+            run(&mut w, out, &settle);
+            run(&mut w, out, "template");
+            { let n = rng.range(3, 12); fresh(&mut w, out, rng, n, &mut run); }
+            if rng.chance(1, 2) {
+                run(&mut w, out, &settle);
+                uncles(&mut w, out, rng, &mut run);
+            }
+        }
+        _ => {
+            { let n = rng.range(3, 12); fresh(&mut w, out, rng, n, &mut run); }
+            run(&mut w, out, &settle);
+            fill(&mut w, out, rng, &mut run);
+            run(&mut w, out, &settle);
+            run(&mut w, out, "template");
+            uncles(&mut w, out, rng, &mut run);
+            if rng.chance(1, 2) {
+                run(&mut w, out, &settle);
+                { let n = rng.range(2, 6); fresh(&mut w, out, rng, n, &mut run); }
+            }
+        }
+    }
+    run(&mut w, out, &settle);
+    run(&mut w, out, "template");
+    run(&mut w, out, "select 1000000 3500000000");
+    run(&mut w, out, "mine 1");
+    run(&mut w, out, "mine 1");
+    drop(run);
+    out.nontrivial(fp);
+    if let Some(world) = w.take() {
+        world.finish();
+    }
+}
+
 pub fn run(opts: &Opts) {
     let base = scratch_dir(&opts.out, "c13");
     let mut out = Out::new(&opts.out);
@@ -1001,10 +1226,16 @@ pub fn run(opts: &Opts) {
             let l = format!("weight {} {}", size, cycles);
             exec(&mut None, &mut out, &base, &l);
         }
-        let cases = if opts.thorough() { 120 } else { 14 } * opts.scale;
-        for _ in 0..cases {
-            let steps = rng.range(40, 90);
-            gen_case(&mut out, &base, &mut rng, steps);
+        let cases = if opts.thorough() { 90 } else { 10 } * opts.scale;
+        let fills = if opts.thorough() { 60 } else { 9 } * opts.scale;
+        for i in 0..cases.max(fills) {
+            if i < cases {
+                let steps = rng.range(40, 90);
+                gen_case(&mut out, &base, &mut rng, steps);
+            }
+            if i < fills {
+                gen_fill_case(&mut out, &base, &mut rng, i % 3);
+            }
         }
     }
     let _ = std::fs::remove_dir_all(&base);
